@@ -45,6 +45,8 @@ type PropSpec struct {
 	// sweep for run-time checks); SweepExclude: function key -> reason it is not covered
 	// ThoroughFunctions: verified only in the thorough tier (too slow for the quick tier)
 	ThoroughFunctions []string `json:"thorough_functions"`
+	// Conformance: bounded tests of assumed library behaviour run in the thorough tier (binaries in <verif>/bin)
+	Conformance []string `json:"conformance"`
 	Sweep        []string          `json:"sweep"`
 	SweepExclude map[string]string `json:"sweep_exclude"`
 	PinnedFile   string   `json:"pinned_file"`   // JSON map obligation -> clause text (in spec/)
@@ -496,6 +498,7 @@ func (s *Session) RunCheck(ps *PropSpec, opts CheckOpts) int {
 	os.RemoveAll(outDir)
 	exit := 0
 	var violLines []string
+	replayCache := map[string][3]string{} // one run of a driver case per check
 	for _, v := range viols {
 		os.MkdirAll(outDir, 0o755)
 		rp := map[string]interface{}{"property": ps.ID, "obligation": v.Name, "reason": v.Reason, "tier": opts.Tier}
@@ -522,7 +525,12 @@ func (s *Session) RunCheck(ps *PropSpec, opts CheckOpts) int {
 		rp["failed_instances"] = solverOut
 		confirmed := false
 		if rule := matchReplay(ps, v.Name); rule != nil {
-			wit, cmd, log := s.runReplayDriver(opts, rule, "")
+			ck := rule.Driver + ":" + rule.Case
+			if _, done := replayCache[ck]; !done {
+				w, c, l := s.runReplayDriver(opts, rule, "")
+				replayCache[ck] = [3]string{w, c, l}
+			}
+			wit, cmd, log := replayCache[ck][0], replayCache[ck][1], replayCache[ck][2]
 			rp["replay_driver"] = rule.Driver + ":" + rule.Case
 			rp["go_test_cmd"] = cmd
 			rp["driver_output"] = log
@@ -541,6 +549,57 @@ func (s *Session) RunCheck(ps *PropSpec, opts CheckOpts) int {
 		}
 		violLines = append(violLines, line)
 		exit = 1
+	}
+	// thorough tier: every replay driver of the property is also run on the tree as it is (bounded sampling of
+	// the real functions against the executable copies of the clauses). A witness found while every obligation
+	// is discharged is a discrepancy between proof and code (or a driver bug) and is reported as an engine
+	// problem - except for driver cases that belong to an obligation listed as a known finding.
+	if opts.Tier == "thorough" && len(viols) == 0 {
+		knownCases := map[string]bool{}
+		for name := range known {
+			if rule := matchReplay(ps, name); rule != nil {
+				knownCases[rule.Driver+":"+rule.Case] = true
+			}
+		}
+		var selftest []map[string]interface{}
+		seenCase := map[string]bool{}
+		for i := range ps.Replay {
+			rule := &ps.Replay[i]
+			ck := rule.Driver + ":" + rule.Case
+			if seenCase[ck] {
+				continue
+			}
+			seenCase[ck] = true
+			wit, _, _ := s.runReplayDriver(opts, rule, "")
+			res := "no witness"
+			if wit != "" {
+				res = "WITNESS: " + wit
+				if knownCases[ck] {
+					res += " (known finding)"
+				} else {
+					engineProblems = append(engineProblems, "replay driver "+ck+" finds a failing input although every obligation is discharged: "+wit)
+				}
+			}
+			selftest = append(selftest, map[string]interface{}{"driver": ck, "result": res, "kind": "bounded sampling of the real code; not counted as proved"})
+		}
+		cov["replay_drivers_on_this_tree"] = selftest
+	}
+	if opts.Tier == "thorough" {
+		var conf []map[string]interface{}
+		for _, c := range ps.Conformance {
+			out, err := exec.Command(filepath.Join(opts.VerifDir, "bin", c)).CombinedOutput()
+			txt := strings.TrimSpace(string(out))
+			if len(txt) > 1500 {
+				txt = txt[len(txt)-1500:]
+			}
+			conf = append(conf, map[string]interface{}{"test": c, "output": txt, "ok": err == nil, "kind": "bounded conformance test of an assumed library model against the real library; not a proof"})
+			if err != nil {
+				engineProblems = append(engineProblems, "library conformance test "+c+" failed: "+txt)
+			}
+		}
+		if conf != nil {
+			cov["library_conformance"] = conf
+		}
 	}
 	ev := &Evidence{PropertyID: ps.ID, Tier: opts.Tier, Seed: opts.Seed, Level: ps.Level, Coverage: cov,
 		Assumptions: append([]string(nil), ps.Assumptions...), WallS: round2(time.Since(start).Seconds() + s.LoadTime), Violations: len(viols)}
